@@ -224,6 +224,22 @@ fn user_mapping(u: &Value, report: &Value) -> MappingEntry {
     }
 }
 
+/// What the caller has set on the writer (its public configuration fields), as values that can be compared.
+pub fn caller_config(w: &MinidumpWriter) -> Value {
+    let cc = w.crash_context.as_ref().map(|c| {
+        let b: &[u8] = unsafe { std::slice::from_raw_parts((&c.inner as *const crash_context::CrashContext).cast::<u8>(), std::mem::size_of::<crash_context::CrashContext>()) };
+        b.iter().fold(0xcbf29ce484222325u64, |h, x| (h ^ *x as u64).wrapping_mul(0x100000001b3))
+    });
+    json!({
+        "process_id": w.process_id, "blamed_thread": w.blamed_thread, "minidump_size_limit": w.minidump_size_limit,
+        "skip_stacks_if_mapping_unreferenced": w.skip_stacks_if_mapping_unreferenced, "principal_mapping_address": w.principal_mapping_address,
+        "user_mapping_list": w.user_mapping_list.iter().map(|m| json!([m.mapping.start_address, m.mapping.size, m.mapping.offset, m.mapping.name.as_ref().map(|n| n.to_string_lossy().into_owned()), mdparse::hexs(&m.identifier)])).collect::<Vec<_>>(),
+        "app_memory": w.app_memory.iter().map(|a| json!([a.ptr, a.length])).collect::<Vec<_>>(),
+        "sanitize_stack": w.sanitize_stack, "crash_context": cc, "stop_timeout_ns": w.stop_timeout.as_nanos().min(u64::MAX as u128) as u64,
+        "direct_auxv_dump_info": w.direct_auxv_dump_info.as_ref().map(|d| json!([d.program_header_count, d.program_header_address, d.linux_gate_address, d.entry_address])),
+    })
+}
+
 pub fn configure_writer(w: &mut MinidumpWriter, opts: &Value, report: &Value) -> Value {
     let mut info = json!({});
     if let Some(l) = opts.get("size_limit").and_then(|v| v.as_u64()) {
@@ -704,9 +720,14 @@ pub fn worker_main(scn: &Value, report: &Value, shared_path: Option<String>, out
                 let seqs = std::rc::Rc::new(std::cell::RefCell::new(Vec::new()));
                 let mut dest = PlanDest { inner: shared.clone(), seqs: seqs.clone() };
                 DEST.with(|d| *d.borrow_mut() = Some((shared.clone(), 0)));
+                let cfg_before = caller_config(&writer);
                 let t0 = Instant::now();
                 let res = std::panic::catch_unwind(std::panic::AssertUnwindSafe(|| writer.dump(&mut dest)));
                 let wall = t0.elapsed().as_secs_f64();
+                let cfg_after = caller_config(&writer);
+                // who traces each thread of the target at the moment the request returns (attachments left behind would vanish
+                // unseen when this worker process exits)
+                let at_return: Vec<Value> = target::list_tids(pid).iter().map(|tid| { let s = target::task_status(pid, *tid); json!({"tid": tid, "tracer": s["tracer"], "state": s["state"]}) }).collect();
                 DEST.with(|d| d.borrow_mut().take());
                 drop(dest);
                 let dest_inner = shared.borrow();
@@ -719,6 +740,9 @@ pub fn worker_main(scn: &Value, report: &Value, shared_path: Option<String>, out
                 let mut rec = json!({"ev":"dump","dump_no":dump_no,"wall_s":wall,"writer":winfo.clone(),"supplied":supplied.clone(),
                                      "opts": {"size_limit": wopts.get("size_limit"), "sanitize": writer.sanitize_stack, "skip": writer.skip_stacks_if_mapping_unreferenced,
                                               "crash_context": writer.crash_context.is_some()}});
+                // which of the caller's settings the dump changed (none should: they are the caller's)
+                rec["at_return"] = json!(at_return);
+                rec["cfg_changed"] = json!(cfg_before.as_object().unwrap().iter().filter(|(k, v)| cfg_after.get(k.as_str()) != Some(*v)).map(|(k, _)| k.clone()).collect::<Vec<_>>());
                 let dcalls = crate::dirops::calls_json_at(&dest_inner.calls, dest_inner.base);
                 let mut allsteps = steps;
                 for (c, s) in dcalls.iter().zip(seqs.iter()) {
@@ -1012,6 +1036,10 @@ pub fn run_scenario(scn: &Value, workdir: &str, tr: &mut Trace) {
     let mut end = json!({"ev":"end","id":id,"worker":outcome,"wall_s":t0.elapsed().as_secs_f64(),"pretraced":pretraced,"opened":opened,"watched":watches.len()});
     if scn.get("observe").and_then(|v| v.as_bool()).unwrap_or(false) {
         end["before"] = before.unwrap_or(Value::Null);
+        // "settle_ms": the target has something of its own still to finish (a thread coming back from vfork()) before it is looked at
+        if let Some(ms) = scn.get("settle_ms").and_then(|v| v.as_u64()) {
+            std::thread::sleep(Duration::from_millis(ms.saturating_sub((t0.elapsed().as_millis() as u64).min(ms))));
+        }
         end["after"] = observe_target(&t, 300);
     }
     tr.emit(end);
